@@ -65,11 +65,11 @@ let sort_field s = if s = "-" then "-" else ints (List.sort compare (List.map in
 
 type run = { mutable id : string; mutable cfg : config option; mutable st : state option; mutable steps : int;
              mutable bad : string option; mutable sched : string list; mutable shape : (string * string) list;
-             mutable oracle : string list; mutable caseline : string }
+             mutable oracle : string list; mutable caseline : string; mutable cut : int }
 
 let () =
   let fix = not (Array.length Sys.argv > 1 && Sys.argv.(1) = "nofix") in
-  let r = { id = ""; cfg = None; st = None; steps = 0; bad = None; sched = []; shape = []; oracle = []; caseline = "" } in
+  let r = { id = ""; cfg = None; st = None; steps = 0; bad = None; sched = []; shape = []; oracle = []; caseline = ""; cut = -1 } in
   let nruns = ref 0 and nbad = ref 0 in
   let finish how rest =
     (match r.cfg, r.st with
@@ -84,7 +84,9 @@ let () =
        else if how = "STUCK" && not (self_blocked s) then r.bad <- Some "kind=deadlock model=STUCK-not-self-blocked impl=STUCK"
      | _ -> ());
     incr nruns;
-    let sched = String.concat "," (List.rev r.sched) in
+    let all = List.rev r.sched in
+    let all = if r.cut >= 0 then List.filteri (fun i _ -> i < r.cut) all else all in
+    let sched = String.concat "," all in
     (match r.bad, r.oracle with
      | None, [] ->
        let shape = Digest.to_hex (Digest.string (String.concat ";" (List.map (fun (a, b) -> a ^ ">" ^ b) (List.sort_uniq compare r.shape)))) in
@@ -107,13 +109,16 @@ let () =
          let threads = int_of_string (field kv "threads") and queue = int_of_string (field kv "queue") in
          r.id <- field kv "id"; r.cfg <- Some (mkcfg fix progs bodies);
          r.st <- Some (init progs (nat_of_int threads) (nat_of_int queue));
-         r.steps <- 0; r.bad <- None; r.sched <- []; r.shape <- []; r.oracle <- [];
+         r.steps <- 0; r.bad <- None; r.sched <- []; r.shape <- []; r.oracle <- []; r.cut <- -1;
          r.caseline <- String.map (fun c -> if c = ' ' then ';' else c) (String.sub line 5 (n - 5))
        end else if n >= 2 && line.[0] = 'I' then begin
          match r.st with
          | Some s when r.bad = None -> let m = show fix s and i = String.sub line 2 (n - 2) in
            if m <> i then r.bad <- Some (Printf.sprintf "kind=init model=%s impl=%s" m i)
          | _ -> ()
+       end else if n >= 2 && line.[0] = 'S' && r.bad <> None then begin
+         (* after the first difference: keep recording the schedule so that the replay is complete *)
+         (match split_on ' ' line with _ :: t :: w :: _ -> r.sched <- (t ^ ":" ^ w) :: r.sched | _ -> ())
        end else if n >= 2 && line.[0] = 'S' then begin
          match r.cfg, r.st with
          | Some cfg, Some s when r.bad = None ->
@@ -132,7 +137,9 @@ let () =
                  if m <> impl then r.bad <- Some (Printf.sprintf "kind=state step=%d tid=%d pc=%s model=%s impl=%s" (r.steps - 1) ti (pc_name before) m impl))
             | _ -> r.bad <- Some "kind=parse")
          | _ -> ()
-       end else if n >= 2 && line.[0] = 'O' then r.oracle <- String.sub line 2 (n - 2) :: r.oracle
+       end else if n >= 2 && line.[0] = 'O' then begin
+         if r.cut < 0 then r.cut <- List.length r.sched + 1;
+         r.oracle <- String.sub line 2 (n - 2) :: r.oracle end
        else if n >= 2 && line.[0] = 'E' then begin
          match split_on ' ' line with
          | _ :: how :: rest -> finish how (String.concat " " rest)
